@@ -6,6 +6,8 @@ import (
 	"os"
 	"strconv"
 	"strings"
+	"sync"
+
 	"verif/tools/internal/ssax"
 
 	"golang.org/x/tools/go/ssa"
@@ -22,6 +24,8 @@ type e3Env struct {
 	a     *Anchors
 	tabs  *tables.Tables
 	disp  *tables.Dispatch
+	closedMu sync.Mutex
+	closed   map[string]closedVal
 	stT   types.Type // SQL state struct
 	tokT  types.Type
 	h5T   types.Type
@@ -144,6 +148,7 @@ func (env *e3Env) config() absint.Config {
 		}
 		return nil, false
 	}
+	cfg.Closed = env.closedVar
 	p := env.p
 	if env.disp != nil {
 		cfg.DispVar = env.disp.Var
@@ -307,4 +312,37 @@ func levelNote(level int) string {
 		return ""
 	}
 	return fmt.Sprintf(" (needed K×%d)", 1<<uint(level))
+}
+
+// closedVar: the value of a package-level variable with a closed initialiser (cached per check run).
+func (env *e3Env) closedVar(name string) (tables.Val, bool) {
+	env.closedMu.Lock()
+	defer env.closedMu.Unlock()
+	if env.closed == nil {
+		env.closed = map[string]closedVal{}
+	}
+	if c, ok := env.closed[name]; ok {
+		return c.v, c.ok
+	}
+	var v tables.Val
+	ok := false
+	// maps and large tables are not what the row split is for
+	if g := env.p.GlobalVar(name); g != nil {
+		switch u := g.Type().(*types.Pointer).Elem().Underlying().(type) {
+		case *types.Array, *types.Slice:
+			_ = u
+			if val, err := tables.ClosedValue(env.p, name); err == nil {
+				v, ok = val, true
+			} else if os.Getenv("VERIF_DBGCLOSED") != "" {
+				fmt.Fprintf(os.Stderr, "closed %s: %v\n", name, err)
+			}
+		}
+	}
+	env.closed[name] = closedVal{v, ok}
+	return v, ok
+}
+
+type closedVal struct {
+	v  tables.Val
+	ok bool
 }
